@@ -68,6 +68,7 @@ def items(tier, seed):
         out.append(dict(name="plots." + fn, kind="module", fn=fn, N=0))
     for fn in ("show_multiple_phasePlot2", "save_multiple_phasePlot2", "show_multiple_uverskyPlot2", "save_multiple_uverskyPlot2"):
         out.append(dict(name="plots." + fn, kind="module2", fn=fn, N=NMAX[tier]))
+    out.append(dict(name="unlabelled_repeats", kind="repeats", N=2, fn="-"))
     for fn in ("show_phaseDiagramPlot", "save_phaseDiagramPlot", "show_uverskyPlot", "save_uverskyPlot"):
         for N in range(1, NMAX[tier] + 1):
             out.append(dict(name="SequenceParameters.%s_N%d" % (fn, N), kind="method", fn=fn, N=N))
@@ -113,6 +114,8 @@ def _run_item(item):
     kind = item["kind"]
     if kind == "geometry":
         return run_geometry(item, res, I)
+    if kind == "repeats":
+        return run_repeats(item, res, I)
     N = item["N"]
     fn = item["fn"]
     TITLE_, LABEL_ = "T!tle-xyz", "lab"
@@ -223,6 +226,50 @@ def _run_item(item):
     return finish(I, res)
 
 
+REPEAT_FUNCS = ["show_multiple_phasePlot", "show_multiple_uverskyPlot", "show_multiple_phasePlot2", "show_multiple_uverskyPlot2",
+                "save_multiple_phasePlot", "save_multiple_uverskyPlot", "save_multiple_phasePlot2", "save_multiple_uverskyPlot2"]
+
+
+def run_repeats(item, res, I):
+    """consecutive unlabelled calls of the multi-sequence entry points with different numbers of sequences (shared default label lists)"""
+    from localcider.sequenceParameters import SequenceParameters
+    import localcider.plots as PM
+    N = item["N"]
+    for fn in REPEAT_FUNCS:
+        rec = install(I)
+        seqs = [sym_sequence(I, N, prefix=p_) for p_ in ("c", "d", "e")]
+        cs = [(z3.Real("a%d" % i), z3.Real("b%d" % i)) for i in range(3)]
+        for a, b in cs:
+            I.solver.add(a >= 0, a <= 1, b >= 0, b <= 1)
+        counts = [3, 2, 1]
+
+        def cex(m, fn=fn):
+            return dict(kind="repeats", fn=fn, counts=counts)
+
+        def thunk(fn=fn):
+            out = []
+            f = getattr(PM, fn)
+            for c_ in counts:
+                del rec.calls[:]
+                if fn.endswith("2"):
+                    first = [[I.call(SequenceParameters, [s_], {}) for _, s_ in seqs[:c_]]]
+                else:
+                    first = [[Sym(a, "real") for a, _ in cs[:c_]], [Sym(b, "real") for _, b in cs[:c_]]]
+                if fn.startswith("show"):
+                    I.call(f, first, {"getFig": True})
+                else:
+                    I.call(f, first + ["out.file"], {})
+                out.append(len(rec.of("scatter")))
+            return out
+
+        def on_return(ob, val, m, fn=fn):
+            ob.prove(list(val) == counts, "%s: consecutive unlabelled calls with %r sequences each draw one marker per sequence" % (fn, counts), lambda m_: cex(m))
+            if len(res["samples"]) < 2:
+                res["samples"].append(dict(item=item["name"], fn=fn, obligation="unlabelled calls with 3, 2, 1 sequences in one process"))
+        explore(I, res, thunk, on_return, cex, label="repeats " + fn)
+    return finish(I, res)
+
+
 def run_linear(item, res, I):
     from localcider.sequenceParameters import SequenceParameters
     N, fn = item["N"], item["fn"]
@@ -330,6 +377,34 @@ def replay(cex):
     fn = cex["fn"]
     TITLE_, LABEL_ = "T!tle-xyz", "lab"
     import tempfile, os
+    if kind == "repeats":
+        tmpd = tempfile.mkdtemp(prefix="verif_c19_")
+        try:
+            f = getattr(PM, fn)
+            for c_ in cex["counts"]:
+                plt.close("all")
+                sps = [SequenceParameters(q) for q in ("KEGS", "DDKR", "GSPA")[:c_]]
+                if fn.endswith("2"):
+                    first = [sps]
+                elif "uversky" in fn.lower():
+                    first = [[sp.get_uversky_hydropathy() for sp in sps], [sp.get_mean_net_charge() for sp in sps]]
+                else:
+                    first = [[sp.get_fraction_positive() for sp in sps], [sp.get_fraction_negative() for sp in sps]]
+                try:
+                    if fn.startswith("show"):
+                        ret = f(*first, getFig=True)
+                        nm = sum(len(coll.get_offsets()) for coll in ret.gca().collections)
+                        if nm != c_:
+                            return True, "%s: %d markers for %d sequences" % (fn, nm, c_)
+                    else:
+                        f(*(first + [os.path.join(tmpd, "o.png")]))
+                except Exception as ex:
+                    return True, "%s: unlabelled call with %d sequences (after calls with %r) raised %s: %s" % (fn, c_, cex["counts"], type(ex).__name__, str(ex)[:80])
+            return False, "ok"
+        finally:
+            plt.close("all")
+            import shutil
+            shutil.rmtree(tmpd, ignore_errors=True)
     tmp = tempfile.mkdtemp(prefix="verif_c19_")
     out = os.path.join(tmp, "out.file")
     try:
@@ -406,4 +481,6 @@ def replay(cex):
 def finding_key(cex):
     if cex["kind"] == "geometry":
         return "geometry:region%d" % cex["region"]
+    if cex["kind"] == "repeats":
+        return "repeats:%s" % cex["fn"]
     return "%s:%s:getFig=%s" % (cex["kind"], cex["fn"], cex.get("getFig"))
